@@ -86,6 +86,7 @@ type Schema struct {
 	Structs []*StructT // struct-likes in program order, then synthesized args/result
 	byDef   map[*idl.Def]*StructT
 	pending []pendingDefault
+	built   bool
 }
 
 type pendingDefault struct {
@@ -137,8 +138,58 @@ func Build(p *idl.Program) *Schema {
 	for _, pd := range s.pending {
 		pd.f.Default = s.Eval(pd.f.Type, pd.v)
 	}
+	// struct literals name only some fields: the others take their declared
+	// default (the IDL's rule) or, without one, what a constructed object holds
+	for _, pd := range s.pending {
+		pd.f.Default = Complete(pd.f.Type, pd.f.Default, 0)
+	}
 	s.pending = nil
+	s.built = true
 	return s
+}
+
+// Complete fills, in every struct value inside v, the fields the value does
+// not mention: a declared default is taken over (completed itself), a
+// non-optional scalar, binary or container field gets its zero value; optional
+// fields without default and struct-typed fields without default stay absent.
+func Complete(t *Type, v V, depth int) V {
+	if v == nil || depth > 12 {
+		return v
+	}
+	switch t.Kind {
+	case List, Set:
+		x := v.(*ListV)
+		o := &ListV{E: []V{}}
+		for _, e := range x.E {
+			o.E = append(o.E, Complete(t.Elem, e, depth+1))
+		}
+		return o
+	case Map:
+		x := v.(*MapV)
+		o := &MapV{K: []V{}, E: []V{}}
+		for i := range x.K {
+			o.K = append(o.K, Complete(t.Key, x.K[i], depth+1))
+			o.E = append(o.E, Complete(t.Elem, x.E[i], depth+1))
+		}
+		return o
+	case Struct:
+		x := v.(*StructV)
+		o := NewStruct()
+		for _, f := range t.Struct.Fields {
+			if fv, ok := x.F[f.ID]; ok && fv != nil {
+				o.F[f.ID] = Complete(f.Type, fv, depth+1)
+				continue
+			}
+			switch {
+			case f.HasDef && f.Default != nil:
+				o.F[f.ID] = Complete(f.Type, f.Default, depth+1)
+			case f.Req != idl.ReqOptional && f.Type.Kind != Struct && t.Struct.Kind != "union":
+				o.F[f.ID] = Zero(f.Type)
+			}
+		}
+		return o
+	}
+	return v
 }
 
 func (s *Schema) fields(fs []*idl.Field, kind string) []*FieldT {
@@ -222,9 +273,17 @@ func (s *StructV) IDs() []int32 {
 // Eval evaluates a written constant value under a resolved type by the IDL's
 // own rules.
 func (s *Schema) Eval(t *Type, v *idl.Value) V {
+	r := s.eval(t, v)
+	if s.built {
+		return Complete(t, r, 0)
+	}
+	return r
+}
+
+func (s *Schema) eval(t *Type, v *idl.Value) V {
 	if v.Kind == idl.VIdent && v.RefConst != nil {
 		c := v.RefConst
-		return s.Eval(s.Resolve(c.Type), c.Value)
+		return s.eval(s.Resolve(c.Type), c.Value)
 	}
 	switch t.Kind {
 	case Bool:
@@ -264,7 +323,7 @@ func (s *Schema) Eval(t *Type, v *idl.Value) V {
 		if v.Kind == idl.VList {
 			l := &ListV{}
 			for _, e := range v.List {
-				l.E = append(l.E, s.Eval(t.Elem, e))
+				l.E = append(l.E, s.eval(t.Elem, e))
 			}
 			return l
 		}
@@ -272,8 +331,8 @@ func (s *Schema) Eval(t *Type, v *idl.Value) V {
 		if v.Kind == idl.VMap {
 			m := &MapV{}
 			for i, e := range v.List {
-				m.K = append(m.K, s.Eval(t.Key, v.Keys[i]))
-				m.E = append(m.E, s.Eval(t.Elem, e))
+				m.K = append(m.K, s.eval(t.Key, v.Keys[i]))
+				m.E = append(m.E, s.eval(t.Elem, e))
 			}
 			return m
 		}
@@ -286,7 +345,7 @@ func (s *Schema) Eval(t *Type, v *idl.Value) V {
 				if f == nil {
 					panic("ref: struct literal names unknown field " + name)
 				}
-				sv.F[f.ID] = s.Eval(f.Type, e)
+				sv.F[f.ID] = s.eval(f.Type, e)
 			}
 			return sv
 		}
